@@ -20,6 +20,9 @@ ZoomOk(z) == 0 <= z /\ z <= 35
 \* a duplicate-free list that, as a set, equals S
 ListIsSet(r, S) == DupFree(r) /\ SetOfSeq(r) = S
 
+MachineOps == {"M.Reset", "M.ChangeZoom", "M.Merge", "M.Shift", "M.NLayer", "M.Lookup",
+               "M.Overlap", "M.Reparse", "M.KeyRoundTrip"}
+
 Ok(e) == e.o = "ok"
 Err(e) == e.o = "err"
 
@@ -428,6 +431,7 @@ Expected(e) ==
     [] e.op \in {"SetOps", "MaxMin", "Line3", "Quat"} -> "helper law"
     [] e.op = "Project"              -> "Mercator within 1e-6 m, round trip within 2e-10 deg, altitude and list structure kept; unknown code = error"
     [] e.op = "Conc"                 -> "the result of the call executed alone"
+    [] e.op \in MachineOps          -> "next working set (see MachineNext); previous state is the previous line's ws"
     [] OTHER -> "no-spec-operator"
 
 \* ---- recorded deviations (known findings) -----------------------------------
@@ -440,8 +444,22 @@ KnownDeviation(e) ==
      /\ PointStoreWholeStep(e.r.lon, e.r.alt, e.r.toward, e.r.cut, e.r.ongrid) THEN "D11"
   ELSE ""
 
-\* ---- machine events (histories) -------------------------------------------
-IsMachineOp(e) == FALSE
-MachineLogged(e) == {}
-MachineExplains(e, ws) == FALSE
+\* ---- machine events (histories): SpatialMachine's actions on recorded state ----
+\* e.a.ws = the real working set after the step; ws = the recorded set before it.
+IsMachineOp(e) == e.op \in MachineOps
+MachineLogged(e) == SetOfSeq(e.a.ws)
+MachineNext(e, ws) ==          \* the specification's action
+  CASE e.op = "M.Reset"       -> SetOfSeq(e.a.ws)
+    [] e.op = "M.ChangeZoom"  -> ChangeZoom(ws, e.a.h, e.a.v)
+    [] e.op = "M.Merge"       -> MergeImpl(ws, e.a.h, e.a.v)
+    [] e.op = "M.Shift"       -> {Shift(s, e.a.dx, e.a.dy, e.a.dv, e.w.abs) : s \in ws}
+    [] e.op = "M.NLayer"      -> NLayer(ws, e.a.hl, e.a.vl, e.w.abs)
+    [] e.op = "M.Lookup"      -> ws \cup {PointToVoxel(e.a.p, e.a.h, e.a.v, e.w.abs)}
+    [] e.op \in {"M.Overlap", "M.Reparse", "M.KeyRoundTrip"} -> ws      \* queries / round trips leave it unchanged
+MachineExplains(e, ws) ==
+  /\ e.bad = "" /\ Ok(e)
+  /\ SetOfSeq(e.a.ws) = MachineNext(e, ws)
+  /\ (e.op \in {"M.ChangeZoom", "M.Merge", "M.NLayer"} => e.a.n = Cardinality(MachineNext(e, ws)))  \* returned without duplicates
+  /\ (e.op = "M.Overlap" => e.r = <<OverlapArr(ws, {e.a.b})>>)
+  /\ (e.op = "M.Lookup" => LatDecided(e.a.p, e.a.h))
 =============================================================================
